@@ -7,14 +7,9 @@
 // Extraction drops: the `log::warn!` statement in the else branch (logging only).
 use vstd::prelude::*;
 verus! {
+//@prelude std_combinators
 // std combinators without a vstd specification in this build (trusted, standard semantics); present so that edits of
 // the extracted functions that use them stay decidable
-pub assume_specification<T, U, F: FnOnce(T) -> U>[Option::<T>::map_or](o: Option<T>, default: U, f: F) -> (r: U)
-    requires o is Some ==> f.requires((o->Some_0,))
-    ensures o is None ==> r == default, o is Some ==> f.ensures((o->Some_0,), r);
-pub assume_specification<T, F: FnOnce(T) -> bool>[Option::<T>::is_some_and](o: Option<T>, f: F) -> (r: bool)
-    requires o is Some ==> f.requires((o->Some_0,))
-    ensures o is None ==> !r, o is Some ==> f.ensures((o->Some_0,), r);
 #[verifier::external_body] #[derive(Clone, Copy)] pub struct Tag { _p: u8 }
 #[verifier::external_body] #[verifier::accept_recursive_types(K)] #[verifier::accept_recursive_types(V)] pub struct BTreeMap<K, V> { _p: core::marker::PhantomData<(K, V)> }
 #[verifier::external_body] #[verifier::accept_recursive_types(T)] pub struct Cow<'a, T: ?Sized> { _p: core::marker::PhantomData<&'a T> }
